@@ -254,7 +254,10 @@ fn main() {
     let mut fmaps = Vec::new();
     for f in cfg.get("file_maps").and_then(|v| v.as_array()).cloned().unwrap_or_default() {
         use std::os::unix::io::AsRawFd;
-        let p = f["path"].as_str().unwrap_or("");
+        // "path_hex": a path that is not UTF-8 (JSON cannot carry it)
+        let pbytes: Vec<u8> = f["path_hex"].as_str().map(unhex).unwrap_or_else(|| f["path"].as_str().unwrap_or("").as_bytes().to_vec());
+        let posstr = { use std::os::unix::ffi::OsStrExt; std::ffi::OsStr::from_bytes(&pbytes).to_os_string() };
+        let p = &posstr;
         let off = f["off"].as_u64().unwrap_or(0);
         let len = f["len"].as_u64().unwrap_or(PAGE as u64) as usize;
         let prot = if f["exec"].as_bool().unwrap_or(false) { libc::PROT_READ | libc::PROT_EXEC } else { libc::PROT_READ };
@@ -273,19 +276,19 @@ fn main() {
                 let flags = if reserved != 0 { libc::MAP_PRIVATE | libc::MAP_FIXED } else if fixed != 0 { libc::MAP_PRIVATE | libc::MAP_FIXED_NOREPLACE } else { libc::MAP_PRIVATE };
                 let a = unsafe { libc::mmap(fixed as *mut libc::c_void, len, prot, flags, fh.as_raw_fd(), off as i64) };
                 if a == libc::MAP_FAILED {
-                    fmaps.push(json!({"path": p, "error": "mmap"}));
+                    fmaps.push(json!({"path": p.to_string_lossy(), "error": "mmap"}));
                 } else {
                     // "split": the last page gets other permissions, so that the kernel reports the file as two adjacent lines
                     if f["split"].as_bool().unwrap_or(false) && len >= 2 * PAGE {
                         unsafe { libc::mprotect((a as usize + len - PAGE) as *mut libc::c_void, PAGE, libc::PROT_READ | libc::PROT_WRITE) };
                     }
-                    fmaps.push(json!({"path": p, "addr": a as usize, "len": len, "off": off}));
+                    fmaps.push(json!({"path": p.to_string_lossy(), "addr": a as usize, "len": len, "off": off}));
                 }
                 if f["delete"].as_bool().unwrap_or(false) {
                     let _ = std::fs::remove_file(p);
                 }
             }
-            Err(e) => fmaps.push(json!({"path": p, "error": e.to_string()})),
+            Err(e) => fmaps.push(json!({"path": p.to_string_lossy(), "error": e.to_string()})),
         }
     }
     report["file_maps"] = json!(fmaps);
@@ -548,7 +551,10 @@ fn build_linker_chain(lc: &Value) -> Value {
         lc.get("names").and_then(|v| v.as_array()).map(|a| a.iter().map(|s| s.as_str().unwrap_or("").as_bytes().to_vec()).collect()).unwrap_or_default()
     };
     let n = names.len();
-    let mut np = names_at;
+    // "name_cross_page": the second name starts ten bytes before a page boundary inside the mapped area (as a name malloc'ed by the
+    // loader at run time may); the other names keep clear of its tail
+    let cross = lc.get("name_cross_page").and_then(|v| v.as_bool()).unwrap_or(false);
+    let mut np = if cross { names_at + 512 } else { names_at };
     let mut entries = Vec::new();
     for (i, nm) in names.iter().enumerate() {
         let at = lmaps + i * 40;
@@ -556,10 +562,11 @@ fn build_linker_chain(lc: &Value) -> Value {
         if at_end {
             np = area + 4 * PAGE - nm.len();
         }
-        let name_ptr = if nm.is_empty() { 0 } else { np };
+        let crossing = cross && i == 1 && !nm.is_empty() && nm.len() < 500;
+        let name_ptr = if nm.is_empty() { 0 } else if crossing { names_at - 10 } else { np };
         if !nm.is_empty() {
-            unsafe { std::ptr::copy_nonoverlapping(nm.as_ptr(), np as *mut u8, nm.len()) };
-            if !at_end {
+            unsafe { std::ptr::copy_nonoverlapping(nm.as_ptr(), name_ptr as *mut u8, nm.len()) };
+            if !at_end && !crossing {
                 np += nm.len() + 1;
             }
         }
